@@ -919,6 +919,10 @@ def corpus():
     # a lazy head-only frame whose labels just fit (99 rows shown)
     yield _ints_case(99, 99, True, False)
     yield _ints_case(120, 100, False, False)
+    # three-digit labels next to few shown rows
+    yield _ints_case(105, 2, False, True)
+    yield _ints_case(105, 2, True, True)
+    yield _ints_case(1003, 3, False, True, colorize=True)
 
 
 def exhaustive(tier):
@@ -936,7 +940,7 @@ def exhaustive(tier):
 
 
 def generate(rng, tier):
-    count = 900 if tier == "quick" else 18000
+    count = 700 if tier == "quick" else 14000
     for i in range(count):
         yield _rand_case(rng)
     # the known-finding classes do occur (skipped under their guard)
@@ -947,7 +951,9 @@ def generate(rng, tier):
 def search(rng):
     while True:
         r = rng.random()
-        if r < 0.4:
+        if r < 0.1:
+            yield _ints_case(rng.randint(95, 130), rng.randint(1, 8), rng.random() < 0.5, True)
+        elif r < 0.4:
             yield _ints_case(rng.randint(0, 30), rng.randint(1, 8), rng.random() < 0.5, rng.random() < 0.8,
                              colorize=rng.random() < 0.5, show_types=rng.random() < 0.5)
         else:
